@@ -5,7 +5,7 @@ Line protocol (after the property id):
   welch <what> <NFFT> <noverlap|dfunc|dan> <Fs> <win> <lb> <ub> <chan0> <chan1> …
       win = `hann` | list of window values;  lb, ub = floats, ub may be `none`
       what ∈ freqs | coherency | coherence | phase | aphase | delay | adelay | cohbavg | cybavg
-             | partial | partialcur | apartial
+             | partial | apartial
   spec  <what> <nchan> <f> <lb> <ub> <fxy[0][0]> <fxy[0][1]> … (upper triangle, row-major, complex)
       what ∈ coherency | coherence | aphase | cohbavg | apartial
   mt <N> <nchan> <nt> then per channel: nt complex rows (tapered spectra), nt real rows (weights)
@@ -73,13 +73,9 @@ def specOps (what : String) (n nf : Nat) (spec : Nat → Nat → Nat → Cx) (f 
       let l := if lb == 0.0 then 1 else l0
       some ("ok " ++ showCx (flat2 n n (bavgMat coherencyBavg spec l u)))
   | "partial" =>
-      -- coherence_partial(time_series[:-1], r = time_series[-1]): intended orientation
+      -- coherence_partial(time_series[:-1], r = time_series[-1])
       let r := n - 1
       some ("ok " ++ showRe (flat3 r r nf fun i j k => partialOf spec i j r k))
-  | "partialcur" =>
-      let r := n - 1
-      some ("ok " ++ showRe (flat3 r r nf fun i j k =>
-        if i ≤ j then partialOfCurrent spec i j r k else partialOfCurrent spec j i r k))
   | "apartial" =>
       -- CoherenceAnalyzer.coherence_partial[i][j][r]: zero when r ∈ {i, j}
       some ("ok " ++ showRe ((List.range n).flatMap fun i => (List.range n).flatMap fun j =>
